@@ -69,6 +69,9 @@ def run_history(ck: Check, det, cfg, ops):
     if len(set(cb.additional_vars)) != len(cb.additional_vars):
         ck.violation(dict(clause="one-entry-per-update", detector=det.name, cause="duplicate-registration"), dict(what="a variable is registered more than once", additional_vars=list(cb.additional_vars), levels=levels, **base))
         return None
+    if set(cb.additional_vars) != set(d.additional_vars.keys()):
+        ck.violation(dict(clause="tracked-variables", detector=det.name), dict(what="the history callback does not track exactly the detector's additional variables", tracked=sorted(cb.additional_vars), detector_vars=sorted(d.additional_vars.keys()), callback_name="hist", **base))
+        return None
     plain = det.make(cfg)  # the same detector without the callback (non-interference)
     recorded = {}  # key -> list of snapshots taken at record time
     upd = 0
